@@ -149,8 +149,32 @@ def diff(a, b, path=""):
     return None
 
 
+def derivative_attribute_witness():
+    """alias detection makes der(x) the canonical variable of v = der(x) and gives it v's min / max / nominal (expressions of p):
+    fresh compile versus the model read back from the cache"""
+    from pymoca.backends.casadi.api import transfer_model
+    txt = "model D\n  parameter Real p = 2.0;\n  Real x(start = 1.0);\n  Real v(min = -p, max = 3 * p, nominal = p);\nequation\n  der(x) = v;\n  v = -x;\nend D;\n"
+    with tempfile.TemporaryDirectory() as tmp:
+        with open(os.path.join(tmp, "D.mo"), "w") as f:
+            f.write(txt)
+        past = time.time() - 1000
+        os.utime(os.path.join(tmp, "D.mo"), (past, past))
+        o = {"detect_aliases": True, "allow_derivative_aliases": True}
+        fresh = transfer_model(tmp, "D", dict(o, cache=False))
+        transfer_model(tmp, "D", dict(o, cache=True))
+        cached = transfer_model(tmp, "D", dict(o, cache=True))
+        show = lambda m: [(v.symbol.name(), str(v.min), str(v.max), str(v.nominal)) for v in m.der_states]
+        a, b = show(fresh), show(cached)
+    bad = type(cached).__name__ == "CachedModel" and a != b
+    return {"performed": True, "reproduces": bad, "input": {"model": txt, "options": o, "history": "transfer_model(cache=True) twice, second call loads the cache"},
+            "observed": "cached der_states %s" % b, "expected": "as the fresh compile: %s" % a, "input_class": "derivative-variable-attribute-expression"}
+
+
 def main():
     payload = json.load(sys.stdin)
+    if payload.get("mode") == "replay" and payload.get("obligation") == "roundtrip2.attribute_expressions_of_derivative_variables_survive":
+        print(json.dumps(derivative_attribute_witness()))
+        return
     tier = payload.get("tier", "quick")
     seed = int(payload.get("seed", 0) or 0)
     from pymoca.backends.casadi.api import transfer_model
